@@ -383,7 +383,50 @@ func c14(run *ev.Run, tier string) {
 				"got": []string{info.Version, info.Prerelease, info.VersionMetadata}, "want": []string{wv, wp, wm}})
 		}
 	}
+	// the same split applies when the version reaches the configuration through
+	// the environment (version: ${VERSION}), the usual way in CI
+	var viaEnv int64
+	for i := 0; i < nparse/4+8; i++ {
+		r := rng.New(uint64(run.Seed)).Fork(uint64(145000 + i))
+		c := genSemver(r)
+		schema := rng.Pick(r, []string{"", "semver", "none"})
+		doc := "name: x\narch: amd64\nversion: ${VERIF_VERSION}\n"
+		if schema != "" {
+			doc += "version_schema: " + schema + "\n"
+		}
+		cfg, err := parseYAML(doc, func(k string) string {
+			if k == "VERIF_VERSION" {
+				return c.str
+			}
+			return ""
+		})
+		run.Case(fmt.Sprintf("semver-via-env|%s|%s", c.str, schema), c.pre != "" || c.meta != "")
+		if err != nil {
+			run.Violate("C14/version-from-environment/parse-error", map[string]any{"input": c.str, "error": err.Error()})
+			continue
+		}
+		viaEnv++
+		wv, wp, wm := fmt.Sprintf("%d.%d.%d", c.major, c.minor, c.pt), c.pre, c.meta
+		if schema == "none" {
+			wv, wp, wm = c.str, "", ""
+		}
+		for _, f := range []string{"", "deb", "rpm"} {
+			info := &cfg.Info
+			if f != "" {
+				if info, err = infoFor(&cfg, f); err != nil {
+					run.Inconclusive(err.Error())
+					continue
+				}
+			}
+			if info.Version != wv || info.Prerelease != wp || info.VersionMetadata != wm {
+				run.Violate("C14/version-from-environment/not-split-like-a-literal", map[string]any{"input": c.str, "schema": schema, "settings_for": f,
+					"got": []string{info.Version, info.Prerelease, info.VersionMetadata}, "want": []string{wv, wp, wm}})
+				break
+			}
+		}
+	}
 	run.Set("version_strings_parsed", parsed)
+	run.Set("versions_supplied_through_the_environment", viaEnv)
 
 	// ---- part 2
 	dir := newWorkDir("c14")
